@@ -79,3 +79,39 @@ func TestRegressC05_WrapImpureCheck(t *testing.T) {
 	runScript(t, true, true, 8, 65535, []step{{100, false}, {50, true}, {100, true}, {49, true}})
 	runScript(t, true, true, 0, 0, []step{{0, false}, {0, true}, {0, true}})
 }
+
+// C04-wrap-stale-accept (fixed by af51909): a callback invoked after other
+// numbers were accepted used the distance computed by its Check.
+func TestRegressC04_WrapLateAccept(t *testing.T) {
+	for _, cfg := range []struct {
+		w   uint
+		max uint64
+	}{{31, 7}, {64, 65535}, {16, 255}} {
+		det, m := newDetector(true, cfg.w, cfg.max)
+		acc := func(seq uint64) {
+			a, ok := det.Check(seq)
+			if !ok {
+				t.Fatalf("setup: Check(%d) refused", seq)
+			}
+			m.Accept(seq)
+			a()
+		}
+		acc(1)
+		acc(0)
+		acc(3)
+		acc(5)
+		kept, ok := det.Check(4)
+		if !ok {
+			t.Fatalf("Check(4) refused")
+		}
+		acc(6)
+		acc(7)
+		m.Accept(4)
+		kept() // late
+		for _, seq := range []uint64{4, 5, 6, 7, 3, 1, 0} {
+			if _, ok := det.Check(seq); ok && m.Replayed(seq) {
+				t.Fatalf("C04: window %d max %d: Check(%d) succeeded although %d was accepted before (late accept of 4 after the window moved)", cfg.w, cfg.max, seq, seq)
+			}
+		}
+	}
+}
